@@ -602,7 +602,7 @@ func c12PanicShape(r c12Result) string {
 	case strings.HasPrefix(r.PType, "runtime."):
 		return "runtime-" + c12Slug(strings.TrimPrefix(m, "runtime error:"), 5)
 	default:
-		return "explicit-" + c12Slug(m, 6)
+		return "explicit-" + c12Slug(m, 4)
 	}
 }
 
@@ -845,7 +845,7 @@ func runC12(r *Run, rng *Rng, tier string) error {
 		if res.Outcome == "err" {
 			r.Count("error_kind", c12Slug(c12ErrTail(res.Msg), 4))
 		}
-		if res.WallMs > slow {
+		if res.WallMs > slow && (res.Outcome == "ok" || res.Outcome == "err") {
 			slow = res.WallMs
 		}
 		if strings.HasPrefix(res.Msg, "[slow:") {
